@@ -43,6 +43,7 @@ RULE = (
 RULE += "; the explicit executor may be a concurrent.futures.Executor of the caller's own (thread per call)"
 RULE += "; built-in exception classes as the function's outcome; the call may be handed to create_task / ctx.spawn instead of being awaited in place"
 RULE += '; exception instances as arguments and results; concurrent.futures exception classes raised by the function'
+RULE += '; an earlier call from the same place that changed a context variable; falsy raised exceptions'
 LEVEL_TEXT = (
     "Differential: what the undecorated function receives, returns or raises is compared with the decorated call "
     "(identity for exceptions); inside the function the thread identity, a loop heartbeat and the caller's context "
@@ -122,7 +123,15 @@ class FnBase(BaseException):
     pass
 
 
+class FnFalsyErr(Exception):
+    """an exception whose instances are falsy (an empty error collection, a zero status): raised like any other"""
+
+    def __len__(self):
+        return 0
+
+
 SENT = P.sentinels()
+_MARK: "contextvars.ContextVar" = __import__("contextvars").ContextVar("hv_c18_mark")
 _SENT_LABEL = {id(v): ("sentinel", k) for k, v in SENT.items()}
 
 
@@ -315,7 +324,7 @@ def run_case(case) -> Outcome:  # noqa: C901, PLR0912, PLR0915
     outcome = case["outcome"]
     result_value = make_value(outcome["v"]) if outcome["kind"] == "return" else None
     if outcome["kind"] == "raise":
-        exc_cls = {"FnErr": FnErr, "ValueError": ValueError, "KeyError": KeyError, "FnBase": FnBase, **_BUILTIN_RAISED}[outcome["v"]["x"]]
+        exc_cls = {"FnErr": FnErr, "FnFalsyErr": FnFalsyErr, "ValueError": ValueError, "KeyError": KeyError, "FnBase": FnBase, **_BUILTIN_RAISED}[outcome["v"]["x"]]
         raised_obj = exc_cls("boom")
     else:
         raised_obj = None
@@ -331,6 +340,11 @@ def run_case(case) -> Outcome:  # noqa: C901, PLR0912, PLR0915
                 consumed[name] = list(v)
         seen["consumed"] = consumed
         seen["thread"] = threading.get_ident()
+        if threaded:
+            # the function changes a context variable and does not undo it: that stays inside this one call - neither the
+            # caller nor a LATER call (on the same worker thread) sees it; what it reads is what its caller had
+            seen.setdefault("marks", []).append(_MARK.get(None))
+            _MARK.set("set by an earlier call of the function")
         seen["fp"] = fingerprint(labels)
         if threaded:
             # the loop must keep serving other tasks while we block here: the heartbeat task sets the event
@@ -519,6 +533,15 @@ def run_case(case) -> Outcome:  # noqa: C901, PLR0912, PLR0915
                 target = wrapped
                 a = args
             obs["fp_before"] = fingerprint(labels)
+            one_shot = any(isinstance(x, dict) and x.get("k") == "iter" for x in [*case["call"]["args"], *case["call"]["kwargs"].values()])
+            if threaded and case.get("twice") and outcome["kind"] != "cancelled" and not spawns and not method and not one_shot:
+                # an earlier, complete call from the same place (the worker thread is reused for the judged one)
+                try:
+                    await target(*a, **kwargs)
+                except BaseException as exc:  # noqa: BLE001 - its own outcome; the judged call below reports
+                    if isinstance(exc, (KeyboardInterrupt, SystemExit)):
+                        raise
+                obs["mark_after_first"] = _MARK.get(None)
             try:
                 r = target(*a, **kwargs)
                 if outcome["kind"] == "cancelled":
@@ -672,6 +695,12 @@ def run_case(case) -> Outcome:  # noqa: C901, PLR0912, PLR0915
         classes_extra = ["function-spawns-a-task"]
     else:
         classes_extra = []
+    if any(m is not None for m in seen.get("marks", [])) or obs.get("mark_after_first") is not None:
+        out.violate(
+            "context",
+            f"C18.context/context-change-of-an-earlier-call-visible/{tag}",
+            f"the function read {seen.get('marks')} (the caller never set the variable); caller after the first call: {obs.get('mark_after_first')!r}",
+        )
     if obs.get("fp_after") != obs.get("fp_before"):
         out.violate("context", f"C18.context/leaked-back-to-caller/{tag}", f"{obs.get('fp_before')} -> {obs.get('fp_after')}")
     # traced: arguments and outcome recorded in a scope named after the function
@@ -843,7 +872,7 @@ def strategy(tier):
         if kind == "return":
             outcome = {"kind": "return", "v": draw(value)}
         else:
-            outcome = {"kind": "raise", "v": {"x": draw(st.sampled_from(["FnErr", "ValueError", "KeyError", *_BUILTIN_RAISED] + ([] if dec in ("retry",) else ["FnBase"])))}}
+            outcome = {"kind": "raise", "v": {"x": draw(st.sampled_from(["FnErr", "FnFalsyErr", "FnFalsyErr", "ValueError", "KeyError", *_BUILTIN_RAISED] + ([] if dec in ("retry",) else ["FnBase"])))}}
         if dec == "retry" and kind == "raise":
             outcome = {"kind": "return", "v": draw(value)}  # retry's own behaviour is C14's subject
         if dec in ("wrap_async_sync", "asynchronous_bare", "asynchronous_call", "traced_sync") and outcome["kind"] == "return" and draw(st.integers(0, 3)) == 0:
@@ -873,6 +902,7 @@ def strategy(tier):
             "nodoc": draw(st.integers(0, 5)) == 0,
             "spawns": draw(st.integers(0, 2)) == 0,
             "via": draw(st.sampled_from(["await", "await", "task", "spawn"])),
+            "twice": draw(st.booleans()),
             "executor": draw(st.sampled_from(["default", "explicit", "custom"])) if dec in ("asynchronous_executor",) else "default",
         }
 
